@@ -37,6 +37,20 @@ def joinNat (xs : List Nat) : String :=
 
 def boolStr (b : Bool) : String := if b then "1" else "0"
 
+/-- split a token list at the separator token `;;` -/
+def splitHistory : List String → List String → List (List String) → List (List String)
+  | [], cur, acc => (cur.reverse :: acc).reverse
+  | t :: ts, cur, acc =>
+    if t == ";;" then splitHistory ts [] (cur.reverse :: acc) else splitHistory ts (t :: cur) acc
+
+/-- `a ;; b ;; c` is a history: the harness runs the ops back to back in one process; the model
+    evaluates each on its own (it has no state), `-` if any part is not modelled -/
+def handleHistory (handle : List String → String) (toks : List String) : String :=
+  if toks.contains ";;" then
+    let outs := (splitHistory toks [] []).map handle
+    if outs.contains "-" then "-" else " ;; ".intercalate outs
+  else handle toks
+
 /-- the line-protocol loop: one op line in, one canonical result line out; the first token (the
     property id) is dropped before the handler sees the line -/
 partial def runLoop (handle : List String → String) : IO Unit := do
@@ -46,7 +60,7 @@ partial def runLoop (handle : List String → String) : IO Unit := do
     let line ← stdin.getLine
     if line.isEmpty then return ()
     let toks := (line.trimAscii.toString.splitOn " ").filter (· ≠ "")
-    stdout.putStrLn (handle (toks.drop 1))
+    stdout.putStrLn (handleHistory handle (toks.drop 1))
     go
   go
 
